@@ -180,6 +180,15 @@ func main() {
 		total += n
 		points[rel] = n
 	}
+	// test-only accessor for the package-level PoP hasher (added to the package by the overlay)
+	exp := filepath.Join(*outDir, "zz_verif_export.go")
+	expSrc := "//go:build verif\n\npackage crypto\n\nimport \"github.com/onflow/crypto/hash\"\n\n// VerifPopKMAC exposes the shared proof-of-possession hasher to the C19 harness.\nfunc VerifPopKMAC() hash.Hasher { return popKMAC }\n"
+	if old, _ := os.ReadFile(exp); string(old) != expSrc {
+		if err := os.WriteFile(exp, []byte(expSrc), 0o644); err != nil {
+			die("%v", err)
+		}
+	}
+	replace[filepath.Join(*repo, "zz_verif_export.go")] = exp
 	shimSrc := "/verif/harness/overlay_src/vsched/vsched.go"
 	if _, err := os.Stat(shimSrc); err != nil {
 		die("%v", err)
